@@ -240,6 +240,27 @@ def ensure_facts(root=None, jobs=16):
         return d, meta
 
 
+
+def fixture_funcs(name):
+    """Functions of /verif/sa/fixtures/<name>.cpp, parsed by the same extractor (for rules that expect zero instances in /repo:
+    a tiny positive example that has to match on every run)."""
+    build_extractor()
+    src = os.path.join(VERIF, 'sa', 'fixtures', 'src', name + '.cpp')
+    h = hashlib.sha256(open(src, 'rb').read() + open(EXTRACT_SRC, 'rb').read()).hexdigest()[:24]
+    d = os.path.join(CACHE, 'fixtures')
+    os.makedirs(d, exist_ok=True)
+    out = os.path.join(d, '%s.%s.json' % (name, h))
+    if not os.path.exists(out):
+        f, ok, msg = _run_one((src, ['-std=gnu++17', '-w'], out, os.path.join(VERIF, 'sa', 'fixtures')))
+        if not ok:
+            raise AnalysisBroken('fixture %s does not parse: %s' % (name, msg[-300:]))
+    u = json.load(open(out))
+    fs = [Func(f) for f in u['functions']]
+    if not fs:
+        raise AnalysisBroken('fixture %s: no functions extracted' % name)
+    return {f.name: f for f in fs}
+
+
 # --------------------------------------------------------------------------- AST helpers
 
 def walk(n):
@@ -667,6 +688,15 @@ class Facts:
             res = [f for f in res if f.file.endswith(file)]
         if len(res) != 1:
             raise AnalysisBroken('anchor ambiguous or vanished: %s (%d candidates)' % (suffix, len(res)))
+        return res[0]
+
+    def fn_rec(self, suffix):
+        """The overload of `suffix` that calls itself (a thin wrapper that only starts the recursion is not the anchor)."""
+        res = self.fn(suffix)
+        if len(res) > 1:
+            res = [f for f in res if any(c.get('k') == 'Call' and f.key in self.callee_keys(c) for c in f.walk())]
+        if len(res) != 1:
+            raise AnalysisBroken('anchor ambiguous or vanished: %s (%d self-recursive candidates)' % (suffix, len(res)))
         return res[0]
 
     def record(self, suffix):
